@@ -150,20 +150,33 @@ def _to_script(actions):
 
 # ---- conformance ---------------------------------------------------------------------------
 
-def execute(impl, cfg, scripts, nslots, tail_tick=True):
-    """Run scripts on one implementation -> (traces, facts list)."""
+def execute(impl, cfg, scripts, nslots, tail_tick=True, preempt=None):
+    """Run scripts on one implementation -> (traces, facts list).
+    preempt = base seed: the threaded server is run under pre-emptive seeded schedules (the hub
+    switches tasks inside blocks, at every primitive, and picks the next task at random); the
+    snapshots are marked "relax" (EioServerTrace: outputs compared as bags, two named windows)."""
     traces, facts = [], []
-    for sc in scripts:
+    for k, sc in enumerate(scripts):
         sc = list(sc)
         if tail_tick:
             last_t = max([o['t'] for o in sc if o['op'] == 'tick'] + [0])
             flush = cfg.get('ping_interval', 2) + 3 * cfg.get('ping_timeout', 1) + 2
             sc.append({'op': 'tick', 't': last_t + flush})
-        lines, f = driver.run_script(impl, cfg, sc, nslots)
+        if preempt is not None:
+            ssd = preempt[k] if isinstance(preempt, list) else preempt * 100003 + k
+            lines, f = driver.run_script(impl, cfg, sc, nslots, seed=ssd, preempt=True)
+            f['schedule_seed'] = ssd
+            for ln in lines:
+                ln['st']['relax'] = True
+        else:
+            lines, f = driver.run_script(impl, cfg, sc, nslots)
         f['script'] = sc
         traces.append(lines)
         facts.append(f)
     return traces, facts
+
+
+HISTORY_INVS = ['EventShape', 'ClosedHasDisconnect', 'DeliveredInOrderOnce']
 
 
 def conform(ck, plans, invariants=STATE_INVS, par=4, on_reject=None):
@@ -171,7 +184,8 @@ def conform(ck, plans, invariants=STATE_INVS, par=4, on_reject=None):
     Returns list of (plan, traces, facts, verdict)."""
     done = []
     for p in plans:
-        traces, facts = execute(p['impl'], p['cfg'], p['scripts'], p['nslots'])
+        traces, facts = execute(p['impl'], p['cfg'], p['scripts'], p['nslots'],
+                                preempt=p.get('preempt'))
         done.append([p, traces, facts, None])
 
     def val(item):
@@ -192,7 +206,31 @@ def conform(ck, plans, invariants=STATE_INVS, par=4, on_reject=None):
                            invariant_violations=len(v.inv_violations))
         for t in traces:
             ck.distinct([[ln['ev'], ln['a']] for ln in t])
-        for i in v.rejected[:3]:
+        rejected = list(v.rejected)
+        if p.get('preempt') is not None and rejected:
+            # a pre-emptive schedule the block-to-block specification cannot follow (a task
+            # switch inside a block) is judged by the history contract alone
+            hv = tracecheck.validate('EioServerHistory', [traces[i] for i in rejected],
+                                     invariants=HISTORY_INVS, properties=['AppendOnly'])
+            ck.cov['schedules_outside_block_spec'] = \
+                ck.cov.get('schedules_outside_block_spec', 0) + len(hv.accepted)
+            for k, inv, txt in hv.inv_violations[:3]:
+                i = rejected[k]
+                ck.violation('history contract %s violated under a pre-emptive schedule (%s)' % (
+                    inv, p['what']),
+                    {'impl': p['impl'], 'cfg': facts[i]['cfg'], 'nslots': p['nslots'],
+                     'script': facts[i]['script'], 'tlc': txt,
+                     'schedule_seed': facts[i].get('schedule_seed'), 'kind': 'server-trace'})
+            for k in sorted(hv.accepted)[:2]:
+                i = rejected[k]
+                d = servercheck.diagnose(traces[i], p['impl'], facts[i]['cfg'], p['nslots'])
+                ck.sample({'schedule_outside_block_spec': {
+                    'schedule_seed': facts[i].get('schedule_seed'),
+                    'stuck_after_line': d.get('stuck_after_line'),
+                    'line': {'ev': (d.get('line') or {}).get('ev'),
+                             'a': (d.get('line') or {}).get('a')}}}, limit=6)
+            rejected = [rejected[k] for k in hv.rejected]
+        for i in rejected[:3]:
             cfg = facts[i]['cfg']
             d = servercheck.diagnose(traces[i], p['impl'], cfg, p['nslots'],
                                      deviations=p.get('deviations', ()))
@@ -204,12 +242,14 @@ def conform(ck, plans, invariants=STATE_INVS, par=4, on_reject=None):
                 continue
             ck.violation(what, {'impl': p['impl'], 'cfg': cfg, 'nslots': p['nslots'],
                                 'script': facts[i]['script'], 'diagnosis': d,
+                                'schedule_seed': facts[i].get('schedule_seed'),
                                 'kind': 'server-trace'})
         for i, inv, txt in v.inv_violations[:3]:
             ck.violation('invariant %s violated on a real execution (%s, %s)' % (
                 inv, p['impl'], p['what']),
                 {'impl': p['impl'], 'cfg': facts[i]['cfg'], 'nslots': p['nslots'],
-                 'script': facts[i]['script'], 'tlc': txt, 'kind': 'server-trace'})
+                 'script': facts[i]['script'], 'tlc': txt,
+                 'schedule_seed': facts[i].get('schedule_seed'), 'kind': 'server-trace'})
         # an application-facing call (send, disconnect, session calls; KeyError is caught and
         # recorded by the harness where the API documents it) must not raise
         nexc = 0
@@ -228,6 +268,14 @@ def conform(ck, plans, invariants=STATE_INVS, par=4, on_reject=None):
                        'first_lines': [{'ev': ln['ev'], 'a': ln['a'], 'out': ln['st']['out']}
                                        for ln in traces[0][:4]]}, limit=4)
     return done
+
+
+def preempt_plan(seed, n, length, nslots, weights, cfg, what, tstep=(1, 10)):
+    """The threaded server under pre-emptive seeded schedules (see execute())."""
+    return dict(what='threaded server under pre-emptive schedules (task switches inside blocks, '
+                     'random choice of the next task): ' + what, impl='sync', cfg=cfg,
+                nslots=nslots, preempt=seed,
+                scripts=random_scripts(seed + 77, n, length, nslots, weights, tstep=tstep))
 
 
 def random_scripts(seed, n, length, nslots, weights=None, tstep=(1, 24)):
@@ -268,7 +316,13 @@ def replay_server_trace(pid, path):
     if rp.get('kind') not in ('server-trace', 'api-exception'):
         print('replay file is not a server trace; content:\n' + json.dumps(rp, indent=1)[:3000])
         return 1
-    lines, facts = driver.run_script(rp['impl'], rp['cfg'], rp['script'], rp['nslots'])
+    if rp.get('schedule_seed') is not None:
+        lines, facts = driver.run_script(rp['impl'], rp['cfg'], rp['script'], rp['nslots'],
+                                         seed=rp['schedule_seed'], preempt=True)
+        for ln in lines:
+            ln['st']['relax'] = True
+    else:
+        lines, facts = driver.run_script(rp['impl'], rp['cfg'], rp['script'], rp['nslots'])
     raised = {rid: r['exc'] for rid, r in facts['reqs'].items() if r.get('api') and r.get('exc')}
     if raised:
         print('replay: application calls raised: %r' % raised)
@@ -306,6 +360,13 @@ def blocked_findings(ck, pid, plan, facts, fid='F6'):
             if sig.get('in') == 'queue.join' and sig.get('transport') == 'polling' and \
                     fid in listed:
                 ck.known_finding(fid, listed[fid]['what'])
+                continue
+            # F6b: threaded server, websocket session, needs a particular thread schedule
+            if sig.get('in') == 'queue.join' and sig.get('transport') == 'websocket' and \
+                    plan['impl'] == 'sync' and plan.get('preempt') is not None and \
+                    (info or {}).get('api') and 'F6b' in listed:
+                ck.known_finding('F6b', listed['F6b']['what'])
+                ck.cov['f6b_schedules'] = ck.cov.get('f6b_schedules', 0) + 1
                 continue
             nviol += 1
             if nviol <= 3:
